@@ -209,6 +209,44 @@ def search(payload):
                         fails.append({"p": f"ne_p(1) & ... & ne_p({width}) [{width} operands]", "q": repr(con)[:200], "x": repr(x), "p_structure": skey(ant),
                                       "q_structure": skey(con), "kind": "unsound: implies() is True but x satisfies p and not q"})
                         break
+    # HISTORY (history.py): the same questions asked again and again in this process (fresh objects, several orders), constants whose
+    # hashes collide (-1 / -2), the SAME conjunction object asked about each of its operands in turn, ill-typed questions in between
+    import datetime as _dt2
+    import history
+    hx = [-3, -2, -1.5, -1, 0, 1, 2, 2.5, 3, 4, 5, 6, 7, 10]
+
+    def ask(mkp, mkq, want=None):
+        def th():
+            pp, qq = mkp(), mkq()
+            r = implies(pp, qq)
+            ex = entails_exact(pp, qq) if want is None else want
+            if ex is True and not r:
+                return {"p": repr(pp), "q": repr(qq), "kind": "incomplete on an understood pair: entailment holds but implies() is False"}
+            if r:
+                for x in hx:
+                    if call(pp, x) == ("ok", True) and call(qq, x) != ("ok", True):
+                        return {"p": repr(pp), "q": repr(qq), "x": repr(x), "kind": "unsound: implies() is True but x satisfies p and not q"}
+            return None
+        return th
+    hcalls = []
+    for a, b in itertools.product((-2, -1, 0, 1, 2, 3), repeat=2):
+        for (n1, m1), (n2, m2) in itertools.product((("ge_p", _ge), ("gt_p", _gt), ("eq_p", _eq)), (("ge_p", _ge), ("gt_p", _gt), ("eq_p", _eq), ("ne_p", _ne))):
+            if (a, b, n1, n2) in {(x_, y_, u_, v_) for x_ in (-2, -1, 3) for y_ in (-2, -1, 2) for u_ in ("ge_p", "gt_p", "eq_p") for v_ in ("ge_p", "gt_p", "ne_p")} or (a + 2 * b) % 5 == 0:
+                hcalls.append((f"implies({n1}({a}), {n2}({b}))", ask(lambda m1=m1, a=a: m1(a), lambda m2=m2, b=b: m2(b))))
+    both = _ge(2) & _le(5)
+    three = (_ge(0) & _le(9)) & _ne(4)
+    for lb, cj, parts in (("both = ge_p(2) & le_p(5)", both, [_le(5), _ge(2), _le(5), _ge(2)]), ("three = (ge_p(0) & le_p(9)) & ne_p(4)", three, [_ne(4), _ge(0) & _le(9), _ne(4)])):
+        for i, part in enumerate(parts):
+            hcalls.append((f"implies({lb.split(' = ')[0]}, {part!r})  [{lb}: ONE object, asked about its operands in turn; question {i + 1}]", ask(lambda cj=cj: cj, lambda part=part: part, want=True)))
+    d1, d0 = _dt2.datetime(2024, 1, 1), _dt2.datetime(2023, 1, 1)
+    hcalls += [("implies(ge_p(datetime(2024, 1, 1)), ge_p(datetime(2023, 1, 1)))", ask(lambda: _ge(d1), lambda: _ge(d0))), ("implies(ge_p((3, 12, 1)), ge_p((3, 12, 0)))", ask(lambda: _ge((3, 12, 1)), lambda: _ge((3, 12, 0)))),
+               ("implies(eq_p('b'), ge_p('a'))", ask(lambda: _eq("b"), lambda: _ge("a")))]
+    aware = _dt2.datetime(2024, 1, 1, tzinfo=_dt2.timezone.utc)
+    hpoison = [("implies(ge_p(naive datetime), ge_p(aware datetime))  # TypeError", lambda: implies(_ge(d1), _ge(aware))), ("implies(ge_p((3, 12, 'rc1')), ge_p((3, 12, 0)))  # TypeError", lambda: implies(_ge((3, 12, "rc1")), _ge((3, 12, 0)))),
+               ("implies(ge_p('a'), ge_p(1))  # TypeError", lambda: implies(_ge("a"), _ge(1))), ("implies(eq_p(None), gt_p(1))  # TypeError", lambda: implies(_eq(None), _gt(1)))]
+    hn, hfails = history.run(hcalls, poison=hpoison, passes=4, seed=int(payload.get("seed", 0)), vetted=True)
+    n += hn
+    fails += hfails
     for s in (set(), {1}, {1, 2}):
         if not (implies(is_real_subset_p(set(s)), is_subset_p(set(s))) and implies(is_real_superset_p(set(s)), is_superset_p(set(s)))):
             fails.append({"p": f"is_real_subset_p({s})", "kind": "real-subset must imply subset over the same set"})
